@@ -183,11 +183,16 @@ impl Universe {
         for b in 0..N_TX {
             assert!(txs[2 * b].owner == txs[2 * b + 1].owner && txs[2 * b] != txs[2 * b + 1], "pairs adjacent");
         }
+        // bases 0 and 2: two different base registers (other permissions, both signed by the owner) at ONE address;
+        // base 1 lives at another address (a foreign register when the key of address 0 is read)
+        let owners: Vec<SecretKey> = (0..2).map(|_| SecretKey::random()).collect();
+        let extra_writer = SecretKey::random().public_key();
         let bases = (0..N_BASE)
             .map(|b| {
-                let sk = SecretKey::random();
-                let meta = XorName::from_content(&[b as u8, 77]);
-                let register = Register::new(sk.public_key(), meta, Permissions::default());
+                let sk = owners[b % 2].clone();
+                let meta = XorName::from_content(&[(b % 2) as u8, 77]);
+                let perms = if b == 2 { Permissions::new_with([extra_writer]) } else { Permissions::default() };
+                let register = Register::new(sk.public_key(), meta, perms);
                 let bytes = register.bytes().expect("register bytes");
                 let good_sig = sk.sign(&bytes);
                 let bad_sig = stranger.sign(&bytes);
@@ -254,6 +259,11 @@ impl Universe {
         self.rev.insert(v.clone(), tok_s.to_string());
         self.by_hash.insert(XorName::from_content(&v), tok_s.to_string());
         Some(v)
+    }
+
+    /// the record key at which the registers of address `a` live (bases `a`, `a + 2`, ..)
+    fn reg_key(&self, a: usize) -> RecordKey {
+        ant_protocol::NetworkAddress::from_register_address(*self.bases[a].register.address()).to_record_key()
     }
 
     /// the record key at which the scratchpad of pad owner `o` lives
@@ -387,6 +397,7 @@ struct QInfo {
 struct H {
     _rt: tokio::runtime::Runtime,
     driver: SwarmDriver,
+    network: ant_networking::Network,
     self_peer: PeerId,
     peers: Vec<PeerId>,
     uni: Universe,
@@ -394,6 +405,8 @@ struct H {
     callers: Vec<Caller>,
     history: Vec<String>,
     strict: bool,
+    /// `--mode net`: the oracle-only component that drives the real `Network::get_record_from_network`
+    net_mode: bool,
 }
 
 fn ret_str(r: std::result::Result<(), NetworkError>) -> String {
@@ -412,12 +425,14 @@ impl H {
             let _g = rt.enter();
             let (_network, _events, driver) = NetworkBuilder::new(Keypair::generate_ed25519(), false).build_client().expect("build_client");
             // keep the command/event channel ends alive for the life of the process
+            let network = _network.clone();
             std::mem::forget(_network);
             std::mem::forget(_events);
-            driver
+            (driver, network)
         };
+        let (driver, network) = driver;
         let self_peer = hook::self_peer_id(&driver);
-        H { _rt: rt, driver, self_peer, peers: vec![], uni: Universe::new(), queries: vec![], callers: vec![], history: vec![], strict }
+        H { _rt: rt, driver, network, self_peer, peers: vec![], uni: Universe::new(), queries: vec![], callers: vec![], history: vec![], strict, net_mode: false }
     }
 
     fn peer(&mut self, p: u64) -> Option<PeerId> {
@@ -629,7 +644,12 @@ impl H {
                     }
                     let n = n_req_key;
                     let is_tx = self.uni.tx_ids(&rec.value).is_some();
-                    let merged_shape = versions.len() >= 2 && is_tx;
+                    // a merged answer is legitimate only for a mergeable split: every version seen is a transaction record
+                    let all_versions_tx = versions.keys().all(|v| self.uni.tx_ids(v).is_some());
+                    let merged_shape = versions.len() >= 2 && is_tx && all_versions_tx;
+                    if versions.len() >= 2 && is_tx && !all_versions_tx {
+                        out.count("ok:transaction-value-while-a-version-of-another-kind-is-held");
+                    }
                     if n >= qval(&cfg.quorum) && !merged_shape {
                         if !Self::target_matches(cfg, &rec.value) {
                             out.oracle_fail("ok-equals-target", &hist(), &format!("caller {c} got ok with a value that differs from its expected value (after `{op}`)"));
@@ -762,6 +782,12 @@ impl H {
                 self.history.push(line.to_string());
                 return self.dump();
             }
+            ["netget", ..] if self.net_mode => {
+                self.history.push(line.to_string());
+                let r = self.netget(line, out);
+                out.nontrivial_case(line);
+                return r;
+            }
             ["merge", toks @ ..] => {
                 self.history.push(line.to_string());
                 return self.merge(toks, line, out);
@@ -879,6 +905,218 @@ impl H {
         s
     }
 
+    /// `netget <quorum> [t=<content>] [reg] a<attempts> / <peer>:<content>[:m] ... <fin|to|nf|qf> / ...`
+    /// The real `Network::get_record_from_network` runs as a task; every `GetNetworkRecord` command it sends is taken from
+    /// the driver's command channel, handed to `handle_network_cmd`, and the query it creates is fed the replies of the
+    /// next attempt listed (`:m` = the holder's record carries a publisher and an expiry) and its terminating event;
+    /// attempts not listed find nothing (`nf`). `a<k>` = `RetryStrategy::N(k)` (k attempts; the back-off sleeps are real).
+    /// The key read is the register key of address 0 when the line names a register, else pad owner 0's key.
+    /// Output: `net a=<attempts made> ok <content>` | `net a=<n> err <class>`.
+    fn netget(&mut self, line: &str, out: &mut Out) -> String {
+        use ant_networking::verif::driver as driver_hook;
+        let parts: Vec<&str> = line.split(" / ").collect();
+        let head: Vec<&str> = parts[0].split_whitespace().collect();
+        if head.len() < 3 || head[0] != "netget" {
+            return "bad-op".into();
+        }
+        let Some(k) = head[head.len() - 1].strip_prefix('a').and_then(dec) else { return "bad-op".into() };
+        if k == 0 || k > 3 {
+            return "bad-op".into();
+        }
+        let Some(cfg) = self.parse_cfg(head[1], &head[2..head.len() - 1]) else { return "bad-op".into() };
+        let mut attempts: Vec<(Vec<(u64, String, bool)>, String)> = vec![];
+        for a in &parts[1..] {
+            let ws: Vec<&str> = a.split_whitespace().collect();
+            let Some((term, replies)) = ws.split_last() else { return "bad-op".into() };
+            if !["fin", "to", "nf", "qf"].contains(term) {
+                return "bad-op".into();
+            }
+            let mut rs = vec![];
+            for r in replies {
+                let f: Vec<&str> = r.split(':').collect();
+                let ok = (f.len() == 2 || (f.len() == 3 && f[2] == "m")) && dec(f[0]).map(|p| p <= 64).unwrap_or(false) && self.uni.bytes(f[1]).is_some();
+                if !ok {
+                    return "bad-op".into();
+                }
+                rs.push((dec(f[0]).unwrap_or(0), f[1].to_string(), f.len() == 3));
+            }
+            attempts.push((rs, term.to_string()));
+        }
+        let all_toks: Vec<String> = attempts.iter().flat_map(|a| a.0.iter().map(|r| r.1.clone())).chain(head.iter().filter_map(|w| w.strip_prefix("t=").map(|t| t.to_string()))).collect();
+        let is_reg = |t: &String| t.starts_with('r') || t.starts_with("hr");
+        let is_pad = |t: &String| t.starts_with('s') || t.starts_with("hs");
+        if all_toks.iter().any(is_reg) && all_toks.iter().any(is_pad) {
+            return "bad-op".into();
+        }
+        let key = if all_toks.iter().any(is_reg) { self.uni.reg_key(0) } else { self.uni.pad_key(0) };
+        let rcfg = GetRecordCfg {
+            get_quorum: cfg.quorum,
+            retry_strategy: if k > 1 { Some(ant_protocol::storage::RetryStrategy::N(NonZeroUsize::new(k as usize).expect("nz"))) } else { None },
+            target_record: cfg.target.clone().map(|v| record(key.clone(), v)),
+            expected_holders: Default::default(),
+            is_register: cfg.is_reg,
+        };
+        let (net, k2, c2) = (self.network.clone(), key.clone(), rcfg.clone());
+        let handle = self._rt.spawn(async move { net.get_record_from_network(k2, &c2).await });
+        let deadline = std::time::Instant::now() + std::time::Duration::from_secs(90);
+        let mut used = 0usize;
+        while !handle.is_finished() {
+            if std::time::Instant::now() > deadline {
+                handle.abort();
+                return "net hang".into();
+            }
+            let Some(cmd) = driver_hook::try_recv_network_cmd(&mut self.driver) else {
+                std::thread::sleep(std::time::Duration::from_millis(1));
+                continue;
+            };
+            let before = self.pending_ids();
+            let _ = hook::handle_network_cmd(&mut self.driver, cmd);
+            let fresh: Vec<QueryId> = self.pending_ids().into_iter().filter(|id| !before.contains(id)).collect();
+            let Some(id) = fresh.first().copied() else { continue };
+            let (replies, term) = attempts.get(used).cloned().unwrap_or((vec![], "nf".to_string()));
+            used += 1;
+            for (p, t, meta) in replies {
+                let Some(v) = self.uni.bytes(&t) else { continue };
+                let peer = self.peer(p);
+                let mut rec = record(key.clone(), v);
+                if meta {
+                    // what a holder may put on the wire next to the value: a publisher and a time-to-live
+                    rec.publisher = Some(PeerId::random());
+                    rec.expires = Some(std::time::Instant::now() + std::time::Duration::from_secs(3600));
+                }
+                let _ = self.feed(id, QueryResult::GetRecord(Ok(GetRecordOk::FoundRecord(PeerRecord { peer, record: rec }))));
+            }
+            let result = match term.as_str() {
+                "fin" => QueryResult::GetRecord(Ok(GetRecordOk::FinishedWithNoAdditionalRecord { cache_candidates: Default::default() })),
+                "nf" => QueryResult::GetRecord(Err(kad::GetRecordError::NotFound { key: key.clone(), closest_peers: vec![] })),
+                "qf" => QueryResult::GetRecord(Err(kad::GetRecordError::QuorumFailed { key: key.clone(), records: vec![], quorum: NonZeroUsize::new(1).expect("nz") })),
+                _ => QueryResult::GetRecord(Err(kad::GetRecordError::Timeout { key: key.clone() })),
+            };
+            let _ = self.feed(id, result);
+        }
+        let res = match self._rt.block_on(handle) {
+            Ok(r) => r,
+            Err(_) => return format!("net a={used} panic"),
+        };
+        out.count(&format!("netget:attempts-made:{used}-of-{k}"));
+        // ---- oracle: the property at the observe point "result of get_record_from_network", on what the holders returned
+        let q = qval(&cfg.quorum);
+        // per attempt: version -> distinct peers, and whether some reply carried publisher/expiry
+        let per_attempt: Vec<(BTreeMap<Vec<u8>, BTreeSet<u64>>, bool)> = attempts
+            .iter()
+            .take(used)
+            .map(|(rs, _)| {
+                // what the holders had returned when the attempt was answered: the replies up to the one that gave some
+                // version its Q-th distinct peer (later replies of the attempt reach nobody), else all of them
+                let mut m: BTreeMap<Vec<u8>, BTreeSet<u64>> = BTreeMap::new();
+                for (p, t, _) in rs {
+                    if let Some(v) = self.uni.bytes(t) {
+                        let e = m.entry(v).or_default();
+                        e.insert(*p);
+                        if e.len() >= q {
+                            break;
+                        }
+                    }
+                }
+                (m, rs.iter().any(|r| r.2))
+            })
+            .collect();
+        let any_meta = per_attempt.iter().any(|a| a.1);
+        match &res {
+            Ok(rec) => {
+                if rec.key != key {
+                    out.oracle_fail("net-ok-for-requested-key", line, "get_record_from_network returned a record under another key");
+                }
+                let backed = per_attempt.iter().any(|(m, _)| m.get(&rec.value).map(|ps| ps.len() >= q).unwrap_or(false));
+                let shown = self.uni.describe(&rec.value, true);
+                if backed {
+                    out.count("netget:ok-backed-by-a-quorum");
+                    if !Self::target_matches(&cfg, &rec.value) {
+                        // a quorum version handed back although other versions were held went through SplitRecord and the
+                        // merge (which may reproduce it): K-d4; without a split it went through the target comparison
+                        let unsplit = per_attempt.iter().any(|(m, _)| m.len() == 1 && m.get(&rec.value).map(|ps| ps.len() >= q).unwrap_or(false));
+                        if unsplit || self.strict {
+                            out.oracle_fail("net-ok-equals-target", line, &format!("get_record_from_network returned Ok({shown}), returned by a quorum, but not the caller's expected value"));
+                        } else {
+                            out.count("oracle:K-d4-restricted(the merge of a split is not compared with the target)");
+                        }
+                    }
+                } else {
+                    // not a version a quorum agreed on: it must be the merge of one attempt's split
+                    let merge_ok = per_attempt.iter().any(|(m, _)| {
+                        if m.len() < 2 {
+                            return false;
+                        }
+                        let toks: Vec<Tok> = m.keys().filter_map(|v| self.uni.rev.get(v)).filter_map(|t| parse_tok(t)).collect();
+                        match parse_tok(&shown) {
+                            Some(Tok::Txs(ids)) => {
+                                let mut u: BTreeSet<usize> = BTreeSet::new();
+                                for t in &toks {
+                                    if let Tok::Txs(l) = t {
+                                        u.extend(l.iter().copied());
+                                    }
+                                }
+                                ids.iter().copied().collect::<BTreeSet<usize>>() == u && !u.is_empty()
+                            }
+                            Some(Tok::Reg { base, good: true, ops }) => {
+                                let mut u: BTreeSet<usize> = BTreeSet::new();
+                                for t in &toks {
+                                    if let Tok::Reg { base: b, good: true, ops: o } = t {
+                                        if *b == base && o.iter().all(|x| *x < STRANGER_FROM) {
+                                            u.extend(o.iter().copied());
+                                        }
+                                    }
+                                }
+                                base % 2 == 0 && ops.iter().copied().collect::<BTreeSet<usize>>() == u
+                            }
+                            Some(Tok::Pad { owner: 0, counter, good: true, .. }) => {
+                                let best = toks.iter().filter_map(|t| if let Tok::Pad { owner: 0, counter, good: true, .. } = t { Some(*counter) } else { None }).max();
+                                m.contains_key(&rec.value) && best == Some(counter)
+                            }
+                            _ => false,
+                        }
+                    });
+                    if !merge_ok {
+                        out.oracle_fail("net-ok-has-quorum", line, &format!("get_record_from_network returned Ok({shown}): neither returned by {q} distinct peers in one attempt nor the merge of one attempt's versions"));
+                    }
+                    out.count("netget:ok-merge-of-a-split");
+                    if !Self::target_matches(&cfg, &rec.value) {
+                        if self.strict {
+                            out.oracle_fail("net-ok-equals-target", line, &format!("get_record_from_network returned Ok({shown}), the merge of a split, which is not the caller's expected value"));
+                        } else {
+                            out.count("oracle:K-d4-restricted(the merge of a split is not compared with the target)");
+                        }
+                    }
+                }
+                format!("net a={used} ok {shown}")
+            }
+            Err(NetworkError::GetRecordError(e)) => {
+                let class = match e {
+                    GetRecordError::RecordDoesNotMatch(rec) => {
+                        // a plain target is a whole record: value, key, publisher, expiry
+                        if !cfg.is_reg && cfg.target.as_deref() == Some(rec.value.as_slice()) && rec.key == key {
+                            if any_meta && !self.strict {
+                                out.count("oracle:K-d6-restricted(a holder's publisher/expiry makes an identical value differ from the target)");
+                            } else {
+                                out.oracle_fail("net-mismatch-on-identical-value", line, "RecordDoesNotMatch although the value returned by the quorum is byte-identical to the expected one");
+                            }
+                        }
+                        format!("mismatch {}", self.uni.describe(&rec.value, true))
+                    }
+                    GetRecordError::NotEnoughCopies { .. } => "notenough".into(),
+                    GetRecordError::QueryTimeout => "timeout".into(),
+                    GetRecordError::RecordNotFound => "notfound".into(),
+                    GetRecordError::RecordKindMismatch => "kindmismatch".into(),
+                    GetRecordError::SplitRecord { .. } => "split".into(),
+                };
+                out.count(&format!("netget:err:{}", class.split(' ').next().unwrap_or("")));
+                format!("net a={used} err {class}")
+            }
+            Err(NetworkError::InternalMsgChannelDropped) => format!("net a={used} err chan"),
+            Err(_) => format!("net a={used} err other"),
+        }
+    }
+
     fn merge(&mut self, toks: &[&str], line: &str, out: &mut Out) -> String {
         let mut vals = vec![];
         for t in toks {
@@ -891,8 +1129,19 @@ impl H {
         if distinct.len() != toks.len() {
             return "illegal-choice".into();
         }
-        // the key being read: where the scratchpad of pad owner 0 lives (s0.* are versions of it, s1.*/s2.* are not)
-        let key = self.uni.pad_key(0);
+        // the key being read: where the scratchpad of pad owner 0 lives (s0.* are versions of it, s1.*/s2.* are not) and
+        // where the registers of address 0 live (r0*, r2* are versions of it, r1* is not). The function compares the key
+        // only with the own address of versions of the kind its first decodable version dictates, so the harness hands it
+        // the register key when that kind is Register and the scratchpad key otherwise.
+        let first_kind = toks.iter().filter_map(|t| parse_tok(t)).find_map(|t| match t {
+            Tok::Junk(_) => None,
+            Tok::Hdr(k, _) => Some(k),
+            Tok::Txs(_) => Some('t'),
+            Tok::Reg { .. } => Some('r'),
+            Tok::Pad { .. } => Some('s'),
+        });
+        let key = if first_kind == Some('r') { self.uni.reg_key(0) } else { self.uni.pad_key(0) };
+        assert!(self.uni.reg_key(0) == self.uni.reg_key(2) && self.uni.reg_key(0) != self.uni.reg_key(1), "register addresses");
         // keys of the result map, ascending in the listed order: the real content hashes when they are, else stand-ins
         let natural: Vec<XorName> = vals.iter().map(|v| XorName::from_content(v)).collect();
         let keys: Vec<XorName> = if natural.windows(2).all(|w| w[0] < w[1]) {
@@ -955,7 +1204,17 @@ impl H {
         let all_tx = parsed.iter().all(|t| matches!(t, Tok::Txs(_)));
         let all_reg = parsed.iter().all(|t| matches!(t, Tok::Reg { .. }));
         let all_pad = parsed.iter().all(|t| matches!(t, Tok::Pad { .. }));
-        let valid_reg = |t: &Tok| matches!(t, Tok::Reg { good: true, ops, .. } if ops.iter().all(|o| *o < STRANGER_FROM));
+        // a version of the key: a register that lives at the key being read (address 0 = bases 0 and 2), verifies
+        let valid_reg = |t: &Tok| matches!(t, Tok::Reg { base, good: true, ops } if base % 2 == 0 && ops.iter().all(|o| *o < STRANGER_FROM));
+        if let Some(Tok::Reg { base, .. }) = parse_tok(s.strip_prefix("some ").unwrap_or("")) {
+            // the register handed back must live at the key being read, whatever else the split held
+            if base % 2 != 0 {
+                out.oracle_fail("split-merge-register-of-the-key", line, &format!("got `{s}`: a register of another address than the key being read"));
+            }
+        }
+        if parsed.iter().any(|t| matches!(t, Tok::Reg { base, .. } if base % 2 != 0)) {
+            out.count("merge:holds-a-register-of-another-address");
+        }
         if toks.len() >= 2 && all_tx {
             let mut u: BTreeSet<usize> = BTreeSet::new();
             for t in &parsed {
@@ -993,7 +1252,12 @@ impl H {
                 }
                 out.count("merge:oracle-registers-none-valid");
             } else {
-                out.count("merge:registers-several-bases(content hash decides the base)");
+                // two base registers at one address (an owner who signed two permission sets): the base must be one of them
+                match parse_tok(s.strip_prefix("some ").unwrap_or("")) {
+                    Some(Tok::Reg { base, good: true, .. }) if bases.contains(&base) => {}
+                    _ => out.oracle_fail("split-merge-is-union", line, &format!("registers: got `{s}`, not a merge into one of the verified bases {bases:?} of the key")),
+                }
+                out.count("merge:registers-several-bases-at-the-key(content hash decides the base)");
             }
         } else if toks.len() >= 2 && all_pad {
             // only validly signed scratchpads that live at the key being read (owner 0) are versions of it
@@ -1083,6 +1347,20 @@ fn corpus() -> Vec<Vec<&'static str>> {
         vec!["reset", "get 0 0 n2", "get 0 1 n2", "found 0 1 t1.2s", "found 0 2 t2.1s", "found 0 3 t3", "found 0 4 t2.1s"],
         vec!["reset", "get 0 0 n2", "found 0 1 t0", "found 0 2 t0s", "finished 0", "merge t0 t0s", "merge t0s t0"],
         vec!["reset", "merge t0.1 t0s.1s", "merge t2s t2 t2.2s", "merge t3 t3s.3"],
+        // a split holding a version that is no transaction record is never answered with a transaction union (first line:
+        // the former defect — three peers agree on a chunk, one peer returned a transaction record, the caller got `ok t5`)
+        vec!["reset", "get 0 0 majority t=hc0", "found 0 1 t5", "found 0 2 hc0", "found 0 3 hc0", "found 0 4 hc0"],
+        vec!["reset", "get 0 0 majority", "get 0 1 majority", "found 0 1 t5", "found 0 2 hc0", "found 0 3 hc0", "found 0 4 hc0", "merge t5 hc0", "merge hc0 t5"],
+        vec!["reset", "get 0 0 n2", "found 0 1 hc0", "found 0 2 t0", "found 0 3 t0"],
+        vec!["reset", "get 0 0 n2 t=t0", "found 0 1 r0g.0", "found 0 2 t0", "found 0 3 t1", "found 0 4 t0"],
+        vec!["reset", "get 0 0 n2", "found 0 1 t1", "found 0 2 x0", "found 0 3 s0.1.0g", "found 0 4 s0.1.0g"],
+        vec!["reset", "get 0 0 n2", "found 0 1 t", "found 0 2 t0", "found 0 3 t0", "get 1 1 n2", "found 1 1 ht0", "found 1 2 t0", "found 1 3 t0"],
+        // a validly signed register of ANOTHER address in the split (r1*) is no version of the key, wherever its content
+        // hash places it (first line: the former defect — the foreign register visited first dictated the base); r0*/r2*
+        // are two base registers at the address being read
+        vec!["reset", "merge r1g.1 r0g.0 r0g.2", "merge r0g.0 r1g.1 r0g.2", "merge r0g.0 r0g.2 r1g.1", "merge r1g.1 r0g.0", "merge r1g.0 r1g.1", "merge r1b.0 r0g.1 r0g.2",
+             "merge r0g.0 r2g.1", "merge r2g.1 r0g.0", "merge r1g.3 r2g.1 r0g.0 r2g.4", "merge hr0 r1g.1 r0g.2", "merge r1g.1.6 r0g.2.6 r0g.3"],
+        vec!["reset", "get 0 0 n2", "found 0 1 r1g.1", "found 0 2 r0g.0", "found 0 3 r0g.2", "finished 0", "merge r1g.1 r0g.0 r0g.2"],
         // Quorum::N up to the replication factor and beyond: exactly that many distinct peers are needed
         vec!["reset", "get 0 0 n6", "found 0 1 hc0", "found 0 2 hc0", "found 0 3 hc0", "found 0 3 hc0", "found 0 4 hc0", "found 0 5 hc0", "dump", "found 0 6 hc0"],
         vec!["reset", "get 0 0 n6", "found 0 1 hc0", "found 0 2 hc0", "found 0 3 hc0", "found 0 4 hc0", "found 0 5 hc0", "finished 0"],
@@ -1106,7 +1384,7 @@ fn pool(rng: &mut Rng, fam: u64) -> Vec<String> {
     let cands: Vec<&str> = match fam {
         0 | 1 => vec!["hc0", "hc1", "hc2", "x0", "hp0"],
         2 => vec!["t0", "t1", "t0.1", "t2.3", "t1.0", "t", "ht0", "t4", "t0s", "t1s", "t0.0s", "t1s.0", "t4s"],
-        3 => vec!["r0g.0", "r0g.1", "r0g.0.1", "r0b.0", "r0g.2.6", "r1g.0", "r0g", "hr0", "r0g.3.4"],
+        3 => vec!["r0g.0", "r0g.1", "r0g.0.1", "r0b.0", "r0g.2.6", "r1g.0", "r0g", "hr0", "r0g.3.4", "r2g.1", "r1g.2.3"],
         4 => vec!["s0.1.0g", "s0.2.0g", "s0.2.1g", "s0.3.0b", "s1.2.0g", "hs0", "s0.3.1g"],
         _ => vec!["hc0", "t0", "t1.2", "r0g.0", "s0.1.0g", "x1", "r0g.1"],
     };
@@ -1258,10 +1536,58 @@ fn gen_target(h: &mut H, rng: &mut Rng, out: &mut Out) {
     }
 }
 
+/// A split of mixed kinds: a quorum of peers agrees on one version while one or two peers returned a version of
+/// another kind (a transaction record next to a chunk / register / scratchpad / junk, or the other way round), in a
+/// random arrival order; optionally the caller expects the quorum version.
+fn gen_mixed_split(h: &mut H, rng: &mut Rng, out: &mut Out) {
+    run_line(h, out, "reset");
+    let tx = *rng.pick(&["t0", "t1.2", "t5", "t0s", "t3.4s"]);
+    let other = *rng.pick(&["hc0", "r0g.0", "s0.1.0g", "x0", "hp0", "ht0", "r1g.1"]);
+    let (major, minor) = if rng.chance(1, 2) { (other, tx) } else { (tx, other) };
+    let (q, need) = match rng.below(4) {
+        0 => ("majority".to_string(), 3u64),
+        1 => ("n1".to_string(), 1),
+        _ => {
+            let n = rng.range(2, 4);
+            (format!("n{n}"), n)
+        }
+    };
+    let mut cfg = q.clone();
+    if rng.chance(1, 2) {
+        cfg.push_str(&format!(" t={}", if rng.chance(3, 4) { major } else { minor }));
+    }
+    for c in 0..rng.range(1, 2) {
+        run_line(h, out, &format!("get 0 {c} {cfg}"));
+    }
+    let mut replies: Vec<(u64, &str)> = (1..=need).map(|p| (p, major)).collect();
+    for p in 0..rng.range(1, 2) {
+        replies.push((need + 1 + p, minor));
+    }
+    if rng.chance(1, 3) {
+        replies.push((need + 4, *rng.pick(&["t2", "hc1", "t0"])));
+    }
+    rng.shuffle(&mut replies);
+    out.count(&format!("mixed-split:{}", if major == tx { "transactions-reach-the-quorum" } else { "another-kind-reaches-the-quorum" }));
+    for (p, t) in replies {
+        let r = run_line(h, out, &format!("found 0 {p} {t}"));
+        if let Some(i) = r.find(" split ") {
+            let first = r[i + 7..].split(" ; ").next().unwrap_or("");
+            let toks: Vec<String> = first.split(',').filter_map(|kv| kv.split('=').next()).map(|s| s.to_string()).collect();
+            let l = merge_line(h, rng, &toks);
+            run_line(h, out, &l);
+        }
+    }
+    if h.pending_ids().contains(&h.queries[0].id) {
+        let kind = *rng.pick(&["finished", "timeout", "notfound"]);
+        run_line(h, out, &format!("{kind} 0"));
+    }
+}
+
 fn gen_history(h: &mut H, rng: &mut Rng, out: &mut Out) {
     match rng.below(10) {
         0 | 1 => return gen_saturation(h, rng, out),
         2 | 3 => return gen_target(h, rng, out),
+        4 => return gen_mixed_split(h, rng, out),
         _ => {}
     }
     run_line(h, out, "reset");
@@ -1364,7 +1690,7 @@ fn gen_history(h: &mut H, rng: &mut Rng, out: &mut Out) {
         let fam2 = if rng.chance(3, 4) { rng.range(2, 4) } else { 5 };
         let cands: Vec<&str> = match fam2 {
             2 => vec!["t0", "t1", "t0.1", "t2.3", "t1.0", "t", "ht0", "t4", "t1.1", "t0s", "t1s", "t0.0s", "t1s.1", "t4s"],
-            3 => vec!["r0g.0", "r0g.1", "r0g.0.1", "r0b.0", "r0g.2.6", "r1g.0", "r0g", "hr0", "r0g.3.4", "r1g.1.2", "r0b.5"],
+            3 => vec!["r0g.0", "r0g.1", "r0g.0.1", "r0b.0", "r0g.2.6", "r1g.0", "r0g", "hr0", "r0g.3.4", "r1g.1.2", "r0b.5", "r2g.0", "r2g.1.2", "r1g.4", "r1b.1"],
             4 => vec!["s0.1.0g", "s0.2.0g", "s0.2.1g", "s0.3.0b", "s1.2.0g", "hs0", "s0.3.1g", "s1.3.0b", "s0.3.0g", "s2.3.0g", "s0.2.2g"],
             _ => vec!["hc0", "t0", "t1.2", "r0g.0", "s0.1.0g", "x1", "r0g.1", "hp0", "t0.3", "s0.2.0g"],
         };
@@ -1403,11 +1729,105 @@ fn exhaustive(h: &mut H, out: &mut Out) {
     out.count("exhaustive:histories(<=5 replies, 3 peers x 2 versions, 2 quorums, 4 terminators)");
 }
 
+/// `--mode net` corpus: the observe point "result of `Network::get_record_from_network`"
+fn corpus_net() -> Vec<&'static str> {
+    vec![
+        // K-d4: the merge of a split is returned as Ok without being compared with the expected value
+        "netget n2 t=r0g.0 reg a1 / 1:r0g.0 2:r0g.1 fin",
+        "netget n2 t=r0g.0 a1 / 1:r0g.0 2:r0g.1 fin",
+        "netget n2 t=s0.1.0g a1 / 1:s0.1.0g 2:s0.2.0g fin",
+        "netget majority t=t0 a1 / 1:t0 2:t1 3:t0 fin",
+        // K-d6: the last responder's record carries a publisher/expiry: a byte-identical value no longer equals the target
+        "netget majority t=hc0 a1 / 1:hc0 2:hc0 3:hc0:m fin",
+        "netget majority t=hc0 a1 / 1:hc0:m 2:hc0 3:hc0 fin",
+        "netget majority a1 / 1:hc0:m 2:hc0:m 3:hc0:m fin",
+        "netget one t=r0g.1 reg a1 / 1:r0g.1:m fin",
+        // plain quorum reads, errors, foreign registers, mixed splits, retries (real back-off sleeps)
+        "netget majority t=hc0 a1 / 1:hc0 2:hc0 3:hc0 fin",
+        "netget majority t=hc1 a1 / 1:hc0 2:hc0 3:hc0 fin",
+        "netget majority a1 / 1:hc0 2:hc0 fin",
+        "netget n2 a1 / 1:hc0 2:hc1 to",
+        "netget n2 a1 / 1:hc0 2:hc1 fin",
+        "netget one a1 / nf",
+        "netget n2 a1 / 1:r1g.1 2:r0g.0 3:r0g.2 fin",
+        "netget majority t=hc0 a1 / 1:t5 2:hc0 3:hc0 4:hc0 fin",
+        "netget n2 a2 / 1:hc0 to / 1:hc0 2:hc0 fin",
+        "netget n2 t=r0g.0.1 reg a2 / 1:hc0 2:hc1 fin / 1:r0g.0 2:r0g.1 fin",
+    ]
+}
+
+fn gen_net(rng: &mut Rng) -> String {
+    let (q, need) = match rng.below(5) {
+        0 => ("one".to_string(), 1u64),
+        1 | 2 => ("majority".to_string(), 3),
+        _ => {
+            let n = rng.range(2, 3);
+            (format!("n{n}"), n)
+        }
+    };
+    let fams: Vec<Vec<&str>> = vec![
+        vec!["hc0", "hc1", "x0", "hp0"],
+        vec!["t0", "t1", "t0.1", "t2.3", "t0s", "t", "ht0"],
+        vec!["r0g.0", "r0g.1", "r0g.0.1", "r0b.2", "r0g.2.6", "r1g.1", "r2g.1", "hr0", "r0g"],
+        vec!["s0.1.0g", "s0.2.0g", "s0.2.1g", "s0.3.0b", "s1.3.0g", "hs0"],
+        vec!["hc0", "t0", "t1.2", "x1", "r0g.0", "r0g.1"],
+    ];
+    let fam = rng.pick(&fams).clone();
+    let main = *rng.pick(&fam);
+    let mut cfg = q.clone();
+    let mut reg = false;
+    if rng.chance(3, 5) {
+        let t = if rng.chance(2, 3) { main } else { *rng.pick(&fam) };
+        cfg.push_str(&format!(" t={t}"));
+        if t.starts_with('r') && rng.chance(1, 2) {
+            cfg.push_str(" reg");
+            reg = true;
+        }
+    }
+    let _ = reg;
+    let mut replies: Vec<String> = vec![];
+    let agreeing = if rng.chance(2, 3) { need } else { rng.below(need + 1) };
+    for p in 1..=agreeing {
+        replies.push(format!("{p}:{main}{}", if rng.chance(1, 8) { ":m" } else { "" }));
+    }
+    for p in 0..rng.below(3) {
+        replies.push(format!("{}:{}{}", 10 + p, rng.pick(&fam), if rng.chance(1, 10) { ":m" } else { "" }));
+    }
+    if rng.chance(1, 5) && !replies.is_empty() {
+        let d = rng.pick(&replies).clone();
+        replies.push(d);
+    }
+    rng.shuffle(&mut replies);
+    let term = *rng.pick(&["fin", "fin", "fin", "to", "nf"]);
+    format!("netget {cfg} a1 / {}{}{term}", replies.join(" "), if replies.is_empty() { "" } else { " " })
+}
+
 fn main() {
     std::panic::set_hook(Box::new(|_| {}));
     let args = common::parse_args();
     let mut out = Out::new(&args.out);
     let mut rng = Rng::new(args.seed);
+    if args.extra.get("mode").map(|m| m == "net").unwrap_or(false) {
+        // oracle-only component: the real `Network::get_record_from_network` over the real driver handlers
+        let mut h = H::new(args.replay.is_some());
+        h.net_mode = true;
+        if let Some(f) = &args.replay {
+            for line in common::read_lines(f) {
+                run_line(&mut h, &mut out, &line);
+            }
+        } else {
+            for line in corpus_net() {
+                run_line(&mut h, &mut out, line);
+            }
+            for _ in 0..args.n {
+                let l = gen_net(&mut rng);
+                run_line(&mut h, &mut out, &l);
+            }
+            out.notes.push("netget: merges of a split are not compared with the target (K-d4); a holder-set publisher/expiry on the completing reply makes a byte-identical value differ from a plain target (K-d6): both judged only in replays".into());
+        }
+        out.finish();
+        return;
+    }
     if let Some(f) = &args.replay {
         // replay: the property at full strength (every caller judged by its own cfg)
         let mut h = H::new(true);
